@@ -1,5 +1,7 @@
 //! bx_types -- bounded stand-in for C17 (kept in its own binary: the macro-expanded type grammar
 //! takes minutes to compile and must not slow down the other bx commands).
+extern crate self as bx_types;
+
 use std::{collections::BTreeSet, env, panic, process::exit};
 
 use serde_json::{json, Value};
@@ -12,6 +14,19 @@ use truc::record::type_resolver::{HostTypeResolver, StaticTypeResolver, TypeReso
 // (`stringify!($t)` of the very tokens used as the generic argument: the same type by construction),
 // and a type table must answer for the short spelling, the spaced spelling, the whitespace-free
 // spelling and the compiler's fully qualified spelling alike.
+
+/// user-crate types: their path must be kept (only std paths are shortened)
+pub mod ut {
+    pub struct Inner(pub u8);
+    pub struct Wrap<T>(pub T);
+    pub mod deep {
+        pub struct Deeper(pub u16);
+        pub mod string {
+            // a user type whose path *ends* like a std one
+            pub struct String(pub u8);
+        }
+    }
+}
 
 fn squeeze(s: &str) -> String {
     s.chars().filter(|c| !c.is_whitespace()).collect()
@@ -122,6 +137,9 @@ fn main() {
     } else {
         level2!(&mut rep, u8, u32, usize, bool, String, ());
     }
+    // user-crate types, alone and inside / around std constructors
+    level1!(&mut rep, bx_types::ut::Inner, bx_types::ut::deep::Deeper, bx_types::ut::deep::string::String, bx_types::ut::Wrap<String>, bx_types::ut::Wrap<bx_types::ut::Inner>,
+        bx_types::ut::Wrap<Vec<bx_types::ut::deep::Deeper>>);
     let res = json!({"depth": depth, "checked": rep.checked, "distinct_types": rep.distinct.len(), "lookups": rep.lookups,
         "violations": rep.violations, "samples": rep.samples});
     println!("{}", serde_json::to_string_pretty(&res).unwrap());
